@@ -488,7 +488,7 @@ pub fn run_component(report: &Report, tier: &Tier, share: f64) {
     }
     report.merge(l);
     let seed = report.seed;
-    let n: u64 = if tier.thorough { 1_200_000 } else { 60_000 };
+    let n: u64 = if tier.thorough { 30_000_000 } else { 60_000 };
     let batch = 100;
     let kinds = [
         InputKind::VecTxtProperty,
@@ -597,7 +597,7 @@ pub fn run(report: &Report, tier: &Tier) {
     run_component(report, tier, 0.6);
     // end to end: a registering and a browsing daemon on one simulated link
     let seed = report.seed;
-    let n: u64 = if tier.thorough { 60_000 } else { 3_000 };
+    let n: u64 = if tier.thorough { 400_000 } else { 3_000 };
     run_parallel(report, n, threads(), tier.budget_s * 0.4, |i, l| {
         e2e_case(util::mix(seed, 0xC16_E2E0 + i), l);
     });
